@@ -229,6 +229,18 @@ func genC08(t *rapid.T) c08Case {
 		g.sigs = append(g.sigs, s)
 	}
 	chain := g.n(0, 4, "chain") // number of extends links
+	// one case in six: all chain files in the root directory, every name the beginning of the next one's
+	// ("/p.jet" <- "/px.jet" <- "/pxx.jet", referred to without extension): prefix-related names are no cycle
+	prefixNames := chain > 0 && g.n(0, 5, "prefixRelatedNames") == 0
+	chainPath := func(i int) string {
+		if prefixNames {
+			return "/p" + strings.Repeat("x", chain-i) + ".jet"
+		}
+		return chainPath(i)
+	}
+	if prefixNames {
+		g.labels["chain-of-prefix-related-names"] = true
+	}
 	nimp := g.n(0, 3, "nimports")
 	ws := func() string { return []string{"", "", "\n", " \n\t"}[g.n(0, 3, "hdrws")] }
 	// import files (may import later ones)
@@ -258,7 +270,7 @@ func genC08(t *rapid.T) c08Case {
 			// relative names resolve against the directory of the file that contains the clause, at every hop
 			next := chainPath(i + 1)
 			rel := "../" + next[1:]
-			if i == 0 {
+			if i == 0 || prefixNames {
 				rel = next[1:]
 			}
 			f.Extends = []string{next, rel, strings.TrimSuffix(rel, ".jet")}[g.n(0, 2, "extspelling")]
@@ -325,6 +337,7 @@ func genC08(t *rapid.T) c08Case {
 	body = append(body, mj.Text("</root>"))
 	root.Body = body
 	g.p.Files = append(files, imports...)
+	g.p.Entry = files[0].Path
 	// every yielded name needs at least one definition reachable from the leaf: define missing ones in the root
 	for b, s := range g.sigs {
 		if len(g.defs[s.name]) == 0 {
@@ -334,7 +347,7 @@ func genC08(t *rapid.T) c08Case {
 	if g.n(0, 3, "viaInclude") == 0 {
 		// the leaf is not executed directly but included by a host template: the same layout, the same blocks
 		g.labels["leaf-reached-through-include"] = true
-		g.p.Files = append(g.p.Files, &mj.File{Path: "/host/page.jet", Body: []*mj.Node{mj.Text("<host>"), {K: "include", E: mj.Str("/c0.jet")}, mj.Text("</host>")}})
+		g.p.Files = append(g.p.Files, &mj.File{Path: "/host/page.jet", Body: []*mj.Node{mj.Text("<host>"), {K: "include", E: mj.Str(files[0].Path)}, mj.Text("</host>")}})
 		g.p.Entry = "/host/page.jet"
 	}
 	c := c08Case{Prog: g.p}
@@ -390,7 +403,7 @@ func judgeC08(c c08Case) (v core.Verdict) {
 			switch {
 			case strings.HasPrefix(f, "/imp/"):
 				v.Label("winner:import")
-			case f == "/c0.jet":
+			case f == "/c0.jet" || strings.HasPrefix(f, "/px"):
 				v.Label("winner:leaf")
 			default:
 				v.Label("winner:chain")
